@@ -335,7 +335,16 @@ func (h *fwdHist) write(buf []byte, inCache bool, kf bool) {
 	}
 	before := unpackLayer(h.v.Layer())
 	kf0 := h.v.Keyframes()
+	orig := append([]byte{}, buf...)
 	ps, _, err := h.v.Write(buf)
+	// the writer loop hands the same buffer to every receiver of the stream:
+	// Write must leave it as it found it
+	h.t.Checked("C01.shared_buffer_untouched")
+	if !bytes.Equal(orig, buf) {
+		h.t.Fail("C01", "shared_buffer_untouched", fmt.Sprintf("Write modified the caller's buffer (packet %d): the next receiver of the same packet would be handed %s instead of %s", f.Seqno, tr.Hex(buf), tr.Hex(orig)))
+		h.t.Fail("C02", "shared_buffer_untouched", fmt.Sprintf("Write modified the caller's buffer (packet %d)", f.Seqno))
+		copy(buf, orig)
+	}
 	after := unpackLayer(h.v.Layer())
 	kfreq := h.v.Keyframes() > kf0
 	h.t.Op(fmt.Sprintf("%s %d %s", sentStr(ps, err), h.v.Layer(), tr.B(kfreq)), "write", flagsStr(f), buf)
